@@ -19,11 +19,17 @@ static long io_plan[64];
 static int io_plan_n = 0;
 static int io_inited = 0;
 
+void verif_io_init(void);
 static void io_init(void) {
+    if (__atomic_load_n(&io_inited, __ATOMIC_ACQUIRE)) return;
+    verif_io_init();
+}
+
+/* called once from main() before any thread exists */
+void verif_io_init(void) {
     if (io_inited) return;
-    io_inited = 1;
     const char *e = getenv("VERIF_IO_EINTR");
-    if (!e) return;
+    if (!e) { __atomic_store_n(&io_inited, 1, __ATOMIC_RELEASE); return; }
     while (*e && io_plan_n < 64) {
         char *end;
         long v = strtol(e, &end, 10);
@@ -34,10 +40,14 @@ static void io_init(void) {
     }
 }
 
+void vs_point(int kind);   /* vsched.c: scheduling point of the controlled scheduler */
+
 /* returns 1 when this call must fail with EINTR */
 static int io_point(void) {
     io_init();
+    vs_point(8);
     long i = __atomic_fetch_add(&io_calls, 1, __ATOMIC_SEQ_CST);
+    if (io_plan_n == 0) return 0;
     for (int k = 0; k < io_plan_n; k++) {
         if (io_plan[k] == i) {
             io_plan[k] = -1;
